@@ -168,6 +168,54 @@ func RoundTrip(w *world.World, f *world.Flat) (re *world.Flat, problems []engine
 	return re, problems
 }
 
+// RegenesisOp is an environment move for any scenario: the six custom modules are exported, their stores emptied and
+// re-initialised from the export (through JSON), in place. If export/import is exact the state is unchanged (and the
+// successor is pruned as already visited); if it is not, the scenario's own oracle sees the consequences in the states
+// that follow.
+func RegenesisOp() engine.Op {
+	return engine.Op{Label: "regenesis", Kind: "regenesis", Custom: func(w *world.World, ctx sdk.Context) world.Result {
+		cdc := w.Enc.Marshaler
+		a := w.App
+		gs := saomod.ExportGenesis(ctx, a.SaoKeeper)
+		gn := nodemod.ExportGenesis(ctx, a.NodeKeeper)
+		go_ := ordermod.ExportGenesis(ctx, a.OrderKeeper)
+		gm := modelmod.ExportGenesis(ctx, a.ModelKeeper)
+		gd := didmod.ExportGenesis(ctx, a.DidKeeper)
+		gk := marketmod.ExportGenesis(ctx, a.MarketKeeper)
+		var gs2 saotypes.GenesisState
+		var gn2 nodetypes.GenesisState
+		var go2 ordertypes.GenesisState
+		var gm2 modeltypes.GenesisState
+		var gd2 didtypes.GenesisState
+		var gk2 markettypes.GenesisState
+		cdc.MustUnmarshalJSON(cdc.MustMarshalJSON(gs), &gs2)
+		cdc.MustUnmarshalJSON(cdc.MustMarshalJSON(gn), &gn2)
+		cdc.MustUnmarshalJSON(cdc.MustMarshalJSON(go_), &go2)
+		cdc.MustUnmarshalJSON(cdc.MustMarshalJSON(gm), &gm2)
+		cdc.MustUnmarshalJSON(cdc.MustMarshalJSON(gd), &gd2)
+		cdc.MustUnmarshalJSON(cdc.MustMarshalJSON(gk), &gk2)
+		for _, n := range world.CustomStores {
+			st := ctx.KVStore(w.KeyOf(n))
+			var keys [][]byte
+			it := st.Iterator(nil, nil)
+			for ; it.Valid(); it.Next() {
+				keys = append(keys, append([]byte{}, it.Key()...))
+			}
+			it.Close()
+			for _, k := range keys {
+				st.Delete(k)
+			}
+		}
+		saomod.InitGenesis(ctx, a.SaoKeeper, gs2)
+		nodemod.InitGenesis(ctx, a.NodeKeeper, gn2)
+		ordermod.InitGenesis(ctx, a.OrderKeeper, go2)
+		modelmod.InitGenesis(ctx, a.ModelKeeper, gm2)
+		didmod.InitGenesis(ctx, a.DidKeeper, gd2)
+		marketmod.InitGenesis(ctx, a.MarketKeeper, gk2)
+		return world.Result{OK: true}
+	}}
+}
+
 // GenesisOracle wraps the oracle-free exploration of another scenario.
 type GenesisOracle struct {
 	Ops     func(w *world.World, ctx sdk.Context, s *engine.State) []engine.Op
